@@ -1,4 +1,4 @@
-"""C17 -- remaining class-level refactorings (narrow necessary conditions R17.1-R17.11)."""
+"""C17 -- remaining class-level refactorings (narrow necessary conditions R17.1-R17.12)."""
 from __future__ import annotations
 
 import ast
@@ -24,6 +24,7 @@ EXPLANATION = (
     " R17.8: the pending setter call is closed at the END of the statement's logical line."
     ' R17.9: the global factory is inserted below the last nested scope of the class.'
 )
+EXPLANATION += ' R17.12: pending-write state is assigned after the previous write was closed.'
 EXPLANATION += ' R17.11: the right-hand side of an augmented write is parenthesised in the setter call.'
 ASSUMPTIONS = ["R17.1 and R17.4 share their rule bodies with C04 and C03"]
 
@@ -36,7 +37,9 @@ def _check_body(ctx, res) -> None:
     f = idx.need_func("rope.refactor.encapsulate_field._FindChangesForModule.get_changed_module")
     cfg = CFG(f.node)
     def spells_setter(a) -> bool:
-        """the appended text contains self.setter -- written in place, or returned by a method of the class"""
+        """the appended text contains self.setter -- written in place, held in a local, or returned by a method of the class"""
+        from .common import _subst_single_locals
+        a = _subst_single_locals(f.node, a)
         if any(is_self_attr(x, "setter") for x in ast.walk(a)):
             return True
         for c in ast.walk(a):
@@ -275,3 +278,44 @@ def _augmented_write_grouping_rule(ctx, res) -> None:
 def check(ctx, res) -> None:
     _check_body(ctx, res)
     _augmented_write_grouping_rule(ctx, res)
+    _pending_write_state_rule(ctx, res)
+
+
+def _pending_write_state_rule(ctx, res) -> None:
+    """R17.12: encapsulate field emits a write in two steps: the opening `set_x(` when the occurrence is met, the closing -- with
+    the parenthesised right-hand side -- when the NEXT occurrence (or the end) is reached, by `_manage_writes`, which reads
+    what was remembered about the pending write (`last_set`, `set_index`, the augmented flag).  In the loop over the
+    occurrences every assignment to an attribute that `_manage_writes` reads therefore stands behind the call of
+    `_manage_writes` of that round: set before it, the pending write is closed with the state of the next one."""
+    from .common import inline_private_calls
+    idx = ctx.idx
+    cls = idx.need_class("rope.refactor.encapsulate_field._FindChangesForModule")
+    mw = cls.methods.get("_manage_writes")
+    f = cls.methods.get("get_changed_module")
+    if mw is None or f is None:
+        raise AnalysisError("anchor=_FindChangesForModule._manage_writes / get_changed_module missing")
+    reads = {x.attr for x in ast.walk(mw.node) if is_self_attr(x) and isinstance(x.ctx, ast.Load)}
+    node = inline_private_calls(idx, f, keep=("_manage_writes",))
+    cfg = CFG(node)
+    calls = [nd.id for nd in cfg.nodes if nd.ast is not None and nd.kind in ("stmt", "test") and any(is_self_attr(c.func, "_manage_writes") for c in calls_in(nd.ast))]
+    if not calls:
+        raise AnalysisError("anchor=get_changed_module: no call of _manage_writes")
+    loops = [nd for nd in cfg.nodes if nd.kind == "loop"]
+    n = 0
+    for nd in cfg.nodes:
+        st = nd.ast
+        if nd.kind != "stmt" or not isinstance(st, ast.Assign) or not cfg.loop_guards(nd.id):
+            continue
+        attrs = [t.attr for t in st.targets if is_self_attr(t) and t.attr in reads]
+        if not attrs:
+            continue
+        n += 1
+        # within one round: from the loop header, can the assignment be reached without passing the call?
+        ok = all(nd.id not in cfg.reachable(l.id, avoid_nodes=calls) or nd.id == l.id for l in loops
+                 if nd.id in cfg.reachable(l.id))
+        res.add("R17.12", f"get_changed_module|pending-write-state-set-after-closing:{attrs[0]}#{n}", ok, f"{f.unit.rel}:{st.lineno}",
+                f"self.{attrs[0]} is set after the pending write was closed" if ok else
+                f"`{ast.unparse(st)[:60]}` can run before `_manage_writes` closes the PREVIOUS write, which reads self.{attrs[0]}: `acct.balance -= fee + tax` followed "
+                "by a plain `acct.balance = ...` is closed with the flag of the plain write -- `set_balance(get_balance() - fee + tax)`, no parentheses, another value",
+                function=f.qualname)
+    res.floor("R17.12", "assignments of pending-write state in the occurrence loop", n, 2)
